@@ -1,5 +1,5 @@
 """Per-property claims (source of MANIFEST.json, regenerate with bin/mkmanifest.py)."""
-SOURCE_COMMITS = ["7e146d4", "9424340", "a1f5d2c", "8e587e5", "5690cd1", "d545c2f", "62723dc", "8131b7f"]   # fix: commits in /repo (no hook commits are needed)
+SOURCE_COMMITS = ["7e146d4", "9424340", "a1f5d2c", "8e587e5", "5690cd1", "d545c2f", "62723dc", "8131b7f", "100c501", "28b899b", "5d5fcc0"]   # fix: commits in /repo (no hook commits are needed)
 
 _NOTE = ("Trusted: PyVC (interpreter, VC generation), z3, the numpy/builtins stubs (assumed contracts of dependencies, listed in the "
          "evidence), floats treated as reals except in comparisons, unbounded ints, partial correctness. ")
@@ -30,6 +30,17 @@ for _p, _extra in {
     "C13": "dtype consistency/promotion clauses of fill, fill_n, +, *, /.", "C18": "state-unchanged clauses on every refusing path of the mutators.",
 }.items():
     CHECKS[_p] = {"category": "other", "technique": _B, "text": _BT + _extra, "note": _NOTE + "Bounded extents (see evidence coverage.bounded.bounds)."}
+for _p, _extra in {
+    "C15": "transform wiring of all seven classes (uninterpreted hypot/arctan2, 2*pi folding), mixin find_bin/fill/fill_n, projection class map.",
+    "C16": "densities/bin_sizes/edges/centres/widths/cumulative of 1D and ND histograms, true bin measures and additivity for the seven special classes (cos uninterpreted).",
+}.items():
+    CHECKS[_p] = {"category": "other", "technique": _B, "text": _BT + _extra, "note": _NOTE + "Bounded extents (see evidence coverage.bounded.bounds)."}
+CHECKS["C19"] = {"category": "proof", "technique": "contract-based deductive verification: VCs from the real AST (generator-based context manager interpreted), z3",
+   "text": "enable_free_arithmetics/_change_value, the getter/setter and the environment default are verified for a symbolic switch value: inside the block the requested value is "
+           "seen; every exit -- normal or exceptional, at every nesting depth up to 3 (each depth x failing level is a separate complete path) -- restores the previous value; the switch "
+           "lives only in the ContextVar (frame). The guards in __iadd__/frequencies setter are checked (bounded arrays) with the switch symbolic: accepted iff on, otherwise refused with the state unchanged.",
+   "note": _NOTE + "contextvars.ContextVar and contextlib.contextmanager are ASSUMED contracts (stubs); isolation between threads/asyncio tasks is reduced to the assumed ContextVar "
+           "contract by the frame clause -- the `schedules` quantifier (interleavings) itself is not decided by this technique."}
 CHECKS["C04"] = {"category": "proof", "technique": "contract-based deductive verification: VCs from the real AST, z3 (nonlinear mixed int/real arithmetic)",
    "text": "FixedWidthBinning._force_bin_existence_single is verified for an unbounded (symbolic) bin count, width, origin, shift and value: value covered, grid and old "
            "bins kept, minimal growth, returned shift, caches invalidated -- every path, all inputs (reals). The adaptive arms of fill are additionally checked bounded "
